@@ -17,7 +17,9 @@ pub mod c11;
 pub mod c12;
 pub mod c13;
 pub mod c14;
+pub mod c15;
 pub mod c16;
+pub mod c17;
 pub mod c19;
 
 pub type Runner = fn(&mut Ctx);
@@ -38,7 +40,9 @@ pub fn lookup(prop: &str) -> Option<Runner> {
         "C12" => c12::run,
         "C13" => c13::run,
         "C14" => c14::run,
+        "C15" => c15::run,
         "C16" => c16::run,
+        "C17" => c17::run,
         "C19" => c19::run,
         _ => return None,
     })
